@@ -184,6 +184,8 @@ func propC14(w *World, r *Report) {
 	}
 	checkXExt(w, r)
 	checkTagPad(w, r)
+	RunCacheInputs(w, r, w.LibFuncs())
+	RunControl(r, "cacheinputs", "ctlCacheInputs", RunCacheInputs)
 	checkUTF16(w, r)
 	checkMacRoman1(w, r)
 	checkNameIDs(w, r)
